@@ -258,7 +258,7 @@ def _strcell(v, dt):
     if isinstance(v, SymStr): v = v.c
     if isinstance(v, StrCell):
         if dt.kind == "U":
-            _check_width(v, dt)
+            return _fit(v, dt)
         return v
     if isinstance(v, str):
         if dt.kind == "U" and dt.width is not None and len(v) > dt.width:
@@ -266,15 +266,18 @@ def _strcell(v, dt):
         return v          # opaque concrete cell; converted lazily on comparison with a symbolic cell
     raise ModelGap(f"store {type(v).__name__} into string array")
 
-def _check_width(cell, dt):
-    if dt.width is None: return
-    if dt.width >= symx.STR_K + symx.STR_TAIL: return
-    # truncation on store would be needed if the cell can be longer than the width
+def _fit(cell, dt):
+    """the cell as stored into a fixed-width <U{n} array (truncated when it can be longer than the width)"""
+    if dt.width is None or dt.width >= symx.STR_K + symx.STR_TAIL + 1: return cell
+    too_long = z3.simplify(z3.UGT(cell.length(), dt.width))
+    if z3.is_false(too_long): return cell
+    t = cell.truncated(dt.width)
+    if t is not None:
+        return t
     c = symx.ctx() if symx.CTX is not None else None
-    too_long = z3.UGT(cell.length(), dt.width)
-    if z3.is_false(z3.simplify(too_long)): return
     if c is None or c.branch(too_long):
         raise ModelGap(f"truncating store into <U{dt.width}")
+    return cell
 
 def unbox(v, dt):
     """Python-level value -> cell of dtype dt (NumPy assignment / construction casting)."""
@@ -712,6 +715,10 @@ def _pos(k, n):
     return k
 
 def _to_py(v):
+    """tolist()/item(): NumPy scalars become Python scalars"""
+    if type(v) is SymF64: return SymPyFloat(v.e)
+    if type(v) is SymI64: return SymPyInt(v.e)
+    if type(v) is SymBool: return symx.SymPyBool(v.e)
     return v
 
 def _obj_scalar(c):
@@ -771,7 +778,7 @@ def _fit_width(cells, dt):
     w = 1
     for c in cells:
         if isinstance(c, str): w = builtins.max(w, len(c))
-        else: w = builtins.max(w, symx.STR_K + symx.STR_TAIL)
+        else: w = builtins.max(w, symx.STR_K + symx.STR_TAIL + 1)
     d = dtype("U1"); d.width = w
     return d
 
@@ -995,6 +1002,17 @@ def repeat(a, n, axis=None):
     else:
         ns = [int(n)] * len(a)
     if builtins.any(k < 0 for k in ns): raise ValueError("repeats may not contain negative values.")
+    if a.dtype.kind == "T" and builtins.any(k >= 2 for k in ns):
+        # observed on the pinned NumPy 2.0.2 (pinned by the witness replays): repeat() copies the packed string structs
+        # without their heap data, so strings of 16+ bytes are corrupted (MemoryError on first use, or a crash)
+        for c, k in zip(a._cells(), ns):
+            if k < 2: continue
+            long = (len(c.encode("utf-8")) >= 16) if isinstance(c, str) else None
+            if long is None:
+                cond = z3.simplify(z3.Or(c.tail, c.cut))
+                long = z3.is_true(cond) or (not z3.is_false(cond) and symx.ctx().branch(cond))
+            if long:
+                raise MemoryError("Failed to load string (ndarray.repeat on a StringDType array with a string of 16+ bytes)")
     return ndarray._make([c for c, k in zip(a._cells(), ns) for _ in range(k)], a.dtype, type(a))
 
 def split(a, at, axis=0):
